@@ -95,6 +95,28 @@ AVOID4 = {
  'C19': 'the input pointer table of the JIT bulk evaluators',
  'C20': 'the decided / undecided test of the x86_64 interval build_min',
 }
+AVOID5 = {
+ 'C01': 'Lru::poke (fidget-core/src/compiler/lru.rs)',
+ 'C02': 'call_fn_unary of the x86_64 JIT point evaluator',
+ 'C03': 'the ambiguous branch of build_or in the x86_64 JIT interval evaluator',
+ 'C04': 'the Memory arm of RegisterAllocator::op_output',
+ 'C05': 'build_sqrt of the x86_64 JIT gradient evaluator',
+ 'C06': 'RegionSize::screen_to_world',
+ 'C07': 'the comparison of the depth clamp in the voxel tile merge',
+ 'C08': 'the octree / dual-contouring code touched by four earlier experiments (collapse test, NaN-gradient guard, vertex transform, NaN-interval cell classification)',
+ 'C09': 'the no-pool branch of Image::apply_effect',
+ 'C10': 'the list of output arrays in JitBulkEval::eval',
+ 'C11': 'the scratch columns of ShapeBulkEval::eval_raw',
+ 'C12': 'the de-duplication cache of Context::export',
+ 'C13': 'the frame push for RemapAxes in Context::import',
+ 'C14': 'the variable map of the child in VmData::simplify',
+ 'C15': 'RegTape::repack_map',
+ 'C16': 'the cache insert for shared binary nodes in Context::import',
+ 'C17': 'the order of type classification in value_from_dynamic (fidget-rhai/src/shapes.rs)',
+ 'C18': 'View3::rot_mat',
+ 'C19': 'a dense-system fast path in Solver::get_jacobian',
+ 'C20': 'BulkVmEval::resize_slots',
+}
 for pid in (ids or props):
     p = props[pid]
     avoid = ''
@@ -117,6 +139,12 @@ for pid in (ids or props):
                  "a flag that is set in one place and read in another), two cooperating sites that each look fine alone, a particular order of operations or of operands, a particular nesting, "
                  "a particular thread interleaving or cancellation point, or a fast path that is only taken after a slow path has run. "
                  "The existing tests must still pass, so the trigger has to lie beyond what they exercise.\n")
+    if 'seed6' in root:
+        avoid = (f"\nFive earlier experiments already used (1) {AVOID[pid]}, (2) {AVOID2[pid]}, (3) {AVOID3[pid]}, (4) {AVOID4[pid]} and (5) {AVOID5[pid]}. Pick a mechanism different from all five, in a different function. "
+                 "Before editing, list for yourself at least five candidate sites spread over DIFFERENT anchor files / mechanisms of the property and choose the one that is least like the earlier ones and that the existing tests cannot see. "
+                 "Prefer a change that looks like a well-meant OPTIMISATION or clean-up: a fast path, a cache, an early exit, a skipped step believed redundant, a reused buffer, a tightened bound, a merged pair of branches, "
+                 "a simplified formula - correct for the common case and wrong for a rare one (a particular combination of operand forms, values at a boundary, sizes, orders, nestings or call histories). "
+                 "The existing tests must still pass, so the rare case has to lie beyond what they exercise.\n")
     open(f'{root}/prompt_{pid}.txt', 'w').write(f"""You are helping to evaluate a verification suite for the Rust library mkeeter/fidget (implicit-surface math expressions compiled to tapes, evaluated by an interpreter VM or an x86_64 JIT, rendered or meshed). You do NOT see the verification suite. Your job is to write ONE realistic, subtle breaking change to the library.
 
 Your private scratch copy of the repository is the git worktree at {root}/{pid} (work ONLY there; never touch /repo or /verif; do not commit). The machine is offline: always pass --offline to cargo and set CARGO_TARGET_DIR={root}/{pid}/target for every cargo command.
